@@ -2,8 +2,8 @@
 
 (P) coq/c15: the handshake model shared with C16; single_stopper / flags_cleared / parked_released for all thread
     counts and schedules of the repaired lock discipline; stw_refuted (the exit window, finding F10) and
-    global_visible_refuted_spawn_window as witnesses.  mutual_exclusion outside the windows and global_visible are
-    NOT proved (see evidence notes): the level claimed is partial.
+    global_visible_refuted_spawn_window as witnesses;
+    C15_mutual_exclusion_outside_known / C15_all_stopped_after_first_pass for runs that avoid the two windows.
 (C) real script threads with hook H3: the stopper marks a thread's state while it reads / replaces it
     (enumerate_stacks, call_per_ctx); the owner looks the mark up at every instruction dispatch and when it
     retracts its published pointer; injected delays (STEEL_VERIF_DELAY) widen the windows.  No baton scheduler:
@@ -13,20 +13,37 @@ import json
 import os
 
 from checks import common
-from checks.c16 import (native_abort_under_concurrent_update, abort_case, private_bin, run_parallel, run_engine, gen_spec, render_steel, oracle, scan_sources, gen_coq)
+from checks.c16 import (native_abort_under_concurrent_update, abort_case, reproduces, private_bin, run_parallel, run_engine, gen_spec, render_steel, oracle, scan_sources, gen_coq)
 
 
 # ---- known-finding classes (decidable over the failing-input description this check produces)
+# A scan-overlap / stale-global symptom belongs to a KNOWN window only when (a) the run widened exactly that window with
+# its injected-delay site and shows the event that window produces, or (b) it could not be reproduced in 3 re-runs with
+# the same settings (the natural hit rate of both windows is far below 1 %); anything reproducible without the
+# window's delay site is a new defect.
+WIDENING = {
+    "safepoint exit": ("sp_exit_checked", "poll_exit_checked"),      # owner retracts its pointer while being read
+    "instruction dispatch": ("poll_exit_checked",),                  # the poll's exit window: owner dispatches the next instruction
+}
+
+
+def has_site(delay, sites):
+    names = [p.split(":")[0] for p in (delay or "").split(",") if p]
+    return any(s in names for s in sites)
+
+
 def exit_window_event(case, params):
-    """F10: the owner retracted its pointer (left a safepoint) while a stopper was reading its state."""
-    # both event kinds: with the poll's exit window (safepoint_or_interrupt) the owner goes on to dispatch the next
-    # instruction while it is being read, with enter_safepoint's window it finishes the current one
-    return case.get("kind") == "scan-overlap" and case.get("event") in ("safepoint exit", "instruction dispatch")
+    """F10: the owner left a safepoint (or, for the poll's window, dispatched) while a stopper was reading its state."""
+    if case.get("kind") != "scan-overlap" or case.get("event") not in WIDENING:
+        return False
+    return has_site(case.get("delay"), WIDENING[case["event"]]) or case.get("reproduced") is False
 
 
 def unregistered_thread_stale_global(case, params):
-    """A thread that was started but not yet registered when the update ran reads the old global table."""
-    return case.get("kind") == "stale-global"
+    """A thread that was started but not yet registered when an update ran reads / re-broadcasts the old global table."""
+    if case.get("kind") != "stale-global":
+        return False
+    return has_site(case.get("delay"), ("spawn_unreg",)) or case.get("reproduced") is False
 
 
 EXIT_WINDOW_UNITS = [
@@ -70,9 +87,13 @@ def run(ck):
         "make-thread / forked_thread_handle path of call_per_ctx is outside the model",
     ]
     ck.level = "proof"
-    ck.notes.append("NOT proved: mutual_exclusion outside the two windows (needs the converse flag invariant 'after SSetFlag every "
-                    "registered thread stays flagged until resume') and global_visible; proved: serialisation of stop-the-world "
-                    "sections, pause flags only during a section, parked threads released, and the two refutation witnesses")
+    ck.notes.append("proved (all thread counts, scripts incl. spawns, schedules): serialisation of stop-the-world sections, pause flags "
+                    "only during a section, parked threads released; C15_mutual_exclusion_outside_known (Excl15 along every run none of "
+                    "whose worlds is in a known window = thread between paused-load and ctx.store(None) with its flag since set, or "
+                    "thread running but unregistered during a section) and C15_all_stopped_after_first_pass; the two windows as "
+                    "refutation witnesses. NOT proved as a theorem: global_visible in the form 'seen = env_gen at every Exec' (the "
+                    "second pass hands every stopped thread the new table by definition of the step, and no stopped thread executes "
+                    "before it is resumed — C15_all_stopped_after_first_pass — but the seen/env_gen bookkeeping invariant was not done)")
     # the generated table of C16 is the tie for the lock discipline this model's cfg_fixed describes
     text, _, _ = gen_coq(*scan_sources())
     ck.translate("Gen_C16", text)
@@ -105,7 +126,7 @@ def run(ck):
         ck.cov["evaluations"] += 1
         ev = events_of(d)
         base = {"jit": jit, "delay": delay}
-        ab = abort_case(d, jit, (payload[1] if kind == "generated" else payload))
+        ab = abort_case(d, jit, (payload[1] if kind == "generated" else payload), ck, delay)
         if ab:
             ck.failing_input("%s run (JIT on, delays %s): host aborted with a panic inside native code" % (kind, delay), dict(ab, delay=delay), tag="abort")
             continue
@@ -115,8 +136,11 @@ def run(ck):
             continue
         # scan overlapping an instruction dispatch of the scanned thread: never acceptable
         for k, n in ev.items():
-            case = dict(base, kind="scan-overlap", event=k, count=n, program=kind,
-                        units=(payload[1] if kind == "generated" else payload))
+            units_ = payload[1] if kind == "generated" else payload
+            rep = None
+            if not has_site(delay, WIDENING.get(k, ())):
+                rep = reproduces(ck, units_, jit, delay, lambda r, k=k: events_of(r).get(k, 0) > 0)
+            case = dict(base, kind="scan-overlap", event=k, count=n, program=kind, reproduced=rep, units=units_)
             fid = ck.failing_input("%d event(s) '%s while its state was being scanned' (%s program, JIT %s, delays %s)" % (n, k, kind, "on" if jit else "off", delay), case, tag="overlap")
             if fid and kind == "exit-window":
                 confirmed["exit-window"] += 1
@@ -130,7 +154,7 @@ def run(ck):
             if stale:
                 fid = ck.failing_input("a thread read the old value of a global %d time(s) after the assigning thread's set! had completed "
                                        "(thread started but not yet registered when the update ran)" % stale,
-                                       dict(base, kind="stale-global", reader="thread in the spawn window", stale_reads=stale, units=payload), tag="stale")
+                                       dict(base, kind="stale-global", reader="thread in the spawn window", stale_reads=stale, reproduced=None, units=payload), tag="stale")
                 if fid:
                     confirmed["spawn-window"] += 1
             elif stale is None:
@@ -140,8 +164,11 @@ def run(ck):
             fails = oracle(sp, d)
             for f in fails[:2]:
                 k2 = "stale-global" if f.startswith("STALE-GLOBAL") else "generated"
+                rep = None
+                if k2 == "stale-global":
+                    rep = reproduces(ck, payload[1], jit, delay, lambda r, sp=sp: any(x.startswith("STALE-GLOBAL") for x in oracle(sp, r)))
                 ck.failing_input("generated program (%d threads, JIT %s, delays %s): %s" % (sp["n"], "on" if jit else "off", delay, f),
-                                 dict(base, kind=k2, spec=sp, units=payload[1], fail=f), tag="prog")
+                                 dict(base, kind=k2, spec=sp, units=payload[1], fail=f, reproduced=rep), tag="prog")
             if not fails and (d.get("progress") or {}).get("stw_finished", 0) > 0:
                 distinct.add((sp["n"], jit, delay))
             if len(ck.cov["samples"]) < 3:
@@ -163,6 +190,15 @@ def run(ck):
 
 def replay(ck, path):
     obj = json.load(open(path))
+    if "units" in obj and "case" not in obj:        # a corpus reproduction script
+        private_bin(ck, "c16")
+        for jit in (True, False):
+            d = run_engine(ck, obj["units"], jit, delay=obj.get("delay"))
+            print("JIT", jit, "events:", events_of(d), "last:", (d.get("res") or [None])[-1])
+            for k, n in events_of(d).items():
+                ck.failing_input("replay: %d event(s) '%s'" % (n, k),
+                                 {"kind": "scan-overlap", "event": k, "delay": obj.get("delay"), "jit": jit, "units": obj["units"]}, tag="overlap")
+        return
     c = obj.get("case")
     if not c or "units" not in c:
         print(json.dumps(obj, indent=1)[:3000])
